@@ -31,6 +31,16 @@ def gen_case(rng, tier, late=False, reread=False):
                 exc[n] = [z.real, z.imag]
         d["exc"] = exc
         d["power"] = rng.random() < 0.4
+        d["aliases"] = []
+        if d["expo"] and rng.random() < 0.3:
+            # one structure pin exposed under a second name; the excitation may come through either name
+            c, k, name = rng.choice(d["expo"])
+            d["aliases"] = [[c, k, "al0", name]]
+            if name in exc and rng.random() < 0.6:
+                exc["al0"] = exc.pop(name)
+            elif name not in exc and rng.random() < 0.6:
+                z = rand_dyadic(rng, 16, 8)
+                exc["al0"] = [z.real, z.imag]
         d["late"] = late
         d["reread"] = reread
         if reread:
@@ -44,6 +54,7 @@ def gen_case(rng, tier, late=False, reread=False):
             d["conns"] = [c for c in d["conns"] if keep(c[0]) and keep(c[1])]
             d["expo"] = [x for x in d["expo"] if keep(x)]
             d["exc"] = {n: v for n, v in d["exc"].items() if n in [x[2] for x in d["expo"]]}
+            d["aliases"] = []
             if not d["conns"]:
                 continue
         return d
@@ -56,6 +67,9 @@ def run_python(d):
     names = [x[2] for x in d["expo"]]
     if d.get("late"):
         sol.solve()                      # an earlier solve, before any monitor is declared
+    for (c, k, al, _) in d.get("aliases", []):
+        sol.map_pins({al: sts[c].pin[f"p{k}"]})
+        names = names + [al]
     for i in d["mon"]:
         sol.monitor_structure(sts[i], name=f"M{i}")
     kw = {"PS": d["ps_vals"][0]} if d.get("reread") else {}
@@ -74,7 +88,7 @@ def run_python(d):
     got = sorted(p.name for p in mod.pin_dic)
     if got != sorted(names):
         raise ValueError("exposed pin set differs")
-    M = netlib.observe_expo(mod, names)
+    M = netlib.observe_expo(mod, [x[2] for x in d["expo"]])
     cols = {}
     for c in tab.columns:
         m = re.fullmatch(r"M(\d+)_p(\d+)_(i|o)", str(c))
@@ -124,8 +138,9 @@ class MonStream(Stream):
             rd = "Obs " + clist("(%s, %s, %s)" % (netlib.spin(c, k), cf(a), cf(b)) for c, k, a, b in read)
         except Exception:
             obs, rd = "Raised", "Raised"
-        u = clist("(%s, %s)" % (netlib.spin(c, k), cq(complex(*d["exc"][n])))
-                  for (c, k, n) in d["expo"] if n in d["exc"])
+        byname = {n: (c, k) for (c, k, n) in d["expo"]}
+        byname.update({al: (c, k) for (c, k, al, _) in d.get("aliases", [])})
+        u = clist("(%s, %s)" % (netlib.spin(*byname[n]), cq(complex(*v))) for n, v in d["exc"].items() if n in byname)
         return ("{| mn_net := %s; mn_ids := %s; mn_u := %s; mn_power := %s; mn_read := %s |}"
                 % (netlib.net_case_lit(d, obs), clist(cnat(i) for i in d["mon"]), u,
                    "true" if d["power"] else "false", rd))
@@ -145,7 +160,8 @@ class MonStream(Stream):
             nc = len(e["comps"])
             if nc != len(d["comps"]):
                 continue     # keep component numbering (monitor ids)
-            e["exc"] = {n: v for n, v in d["exc"].items() if n in [x[2] for x in e["expo"]]}
+            e["aliases"] = [a for a in d.get("aliases", []) if [a[0], a[1], a[3]] in [list(x) for x in e["expo"]]]
+            e["exc"] = {n: v for n, v in d["exc"].items() if n in [x[2] for x in e["expo"]] + [a[2] for a in e["aliases"]]}
             out.append(e)
         for n in list(d["exc"]):
             e = copy.deepcopy(d)
